@@ -50,6 +50,8 @@ def check(res, tier):
         res.evaluations += 1
         kind = label.split(":")[0]
         st["%s:%s" % (kind, a["result"])] += 1
+        if a["result"] == "not-run":
+            continue
         if a["result"] in ("ok", "error"):
             res.nontrivial("%s:%d:%s" % (kind, len(a.get("diags", [])), a.get("faulty")))
             continue
